@@ -68,6 +68,13 @@ WORKSPACES = {
         "fu.f90": "program fu\n  use fam\n  use fbm\n  implicit none\n  falpha = fa1 + fa2\n  fbeta = fb1\nend program fu\n",
     },
 }
+# a macro defined by one preprocessed file and tested by another that does not define it: at start-up every file is parsed
+# with the configured definitions only (whatever the number of workers), so the other file never sees it
+WORKSPACES["WJ_macro_in_one_file"] = {
+    "ja.F90": "#define J_WITH_EXTRA 1\nmodule jam\n  implicit none\n  integer :: ja1\nend module jam\n",
+    "jb.F90": "module jbm\n  implicit none\n  integer :: jb1\n#ifdef J_WITH_EXTRA\n  integer :: jb_extra\n#endif\nend module jbm\n",
+    "ju.f90": "program ju\n  use jam\n  use jbm\n  implicit none\n  jb1 = ja1\nend program ju\n",
+}
 # two files declare entities with the same attribute list; one of them is later named by a separate EXTERNAL statement:
 # whatever a process remembers about an attribute list must not carry that over to the other file's entity
 WORKSPACES["WH_same_attributes"] = {
